@@ -364,6 +364,9 @@ def run(ctx: Ctx) -> None:
     from ..rules_par import rule_ieee
 
     ctx.floor("C18.IEEE", rule_ieee(ctx, "C18.IEEE"), 12)
+    from ..rules_par import rule_float_arange
+
+    ctx.floor("C18.ARANGE(kernels)", rule_float_arange(ctx, "C18.ARANGE"), 12)
     ctx.floor("C18.ALIASED-INIT(functions)", rule_aliased_init(ctx), 200)
     for key in (
         "pandora/aggregation/cbca.py::CrossBasedCostAggregation.cost_volume_aggregation",
@@ -412,12 +415,14 @@ SPEC = PropSpec(
 RISK = "pandora/cost_volume_confidence/risk.py"
 AMB = "pandora/cost_volume_confidence/ambiguity.py"
 MUTANTS = [
+    {"id": "eta-samples-by-float-arange", "file": "pandora/cost_volume_confidence/risk.py", "old": "        etas = _eta_min + np.arange(nb_etas) * _eta_step\n", "new": "        etas = np.arange(_eta_min, _eta_max, _eta_step)\n", "count": 2},
+    {"id": "switched-kernel-cached-on-disk", "file": "pandora/cost_volume_confidence/interval_bounds.py", "old": '        parallel=literal_eval(os.environ.get("PANDORA_NUMBA_PARALLEL", "True")),\n', "new": '        parallel=literal_eval(os.environ.get("PANDORA_NUMBA_PARALLEL", "True")),\n        cache=True,\n', "count": 1},
     {"id": "left-and-right-outputs-share-one-dataset", "file": "pandora/state_machine.py", "old": "        self.left_disparity = xr.Dataset()\n        self.right_disparity = xr.Dataset()\n", "new": "        self.left_disparity = self.right_disparity = xr.Dataset()\n"},
-    {"id": "indicator-through-alias-setdefault-plus-equal", "file": "pandora/state_machine.py", "old": '        cfg["pipeline"][input_step]["indicator"] = ""\n        if len(input_step.split(".")) == 2:\n            cfg["pipeline"][input_step]["indicator"] = "." + input_step.split(".")[1]\n', "new": '        step_cfg = cfg["pipeline"][input_step]\n        step_cfg.setdefault("indicator", "")\n        if len(input_step.split(".")) == 2:\n            step_cfg["indicator"] += "." + input_step.split(".")[1]\n'},
-    {"id": "eq-indicator-through-alias-overwrite", "kind": "equiv", "file": "pandora/state_machine.py", "old": '        cfg["pipeline"][input_step]["indicator"] = ""\n        if len(input_step.split(".")) == 2:\n            cfg["pipeline"][input_step]["indicator"] = "." + input_step.split(".")[1]\n', "new": '        step_cfg = cfg["pipeline"][input_step]\n        step_cfg["indicator"] = ""\n        if len(input_step.split(".")) == 2:\n            step_cfg["indicator"] = "." + input_step.split(".")[1]\n'},
+    {"id": "indicator-through-alias-setdefault-plus-equal", "file": "pandora/state_machine.py", "old": '        cfg["pipeline"][input_step]["indicator"] = ""\n        if "." in input_step:\n            cfg["pipeline"][input_step]["indicator"] = "." + input_step.split(".", 1)[1]\n', "new": '        step_cfg = cfg["pipeline"][input_step]\n        step_cfg.setdefault("indicator", "")\n        if "." in input_step:\n            step_cfg["indicator"] += "." + input_step.split(".", 1)[1]\n'},
+    {"id": "eq-indicator-through-alias-overwrite", "kind": "equiv", "file": "pandora/state_machine.py", "old": '        cfg["pipeline"][input_step]["indicator"] = ""\n        if "." in input_step:\n            cfg["pipeline"][input_step]["indicator"] = "." + input_step.split(".", 1)[1]\n', "new": '        step_cfg = cfg["pipeline"][input_step]\n        step_cfg["indicator"] = ""\n        if "." in input_step:\n            step_cfg["indicator"] = "." + input_step.split(".", 1)[1]\n'},
     {"id": "kernel-compiled-with-fastmath", "file": "pandora/cost_volume_confidence/ambiguity.py", "old": '    @njit(\n        "f4[:, :](f4[:, :, :], f4, f4, f4)",\n', "new": '    @njit(\n        "f4[:, :](f4[:, :, :], f4, f4, f4)",\n        fastmath=True,\n'},
-    {"id": "indicator-suffix-appended-to-previous", "file": "pandora/state_machine.py", "old": '        cfg["pipeline"][input_step]["indicator"] = ""\n        if len(input_step.split(".")) == 2:\n            cfg["pipeline"][input_step]["indicator"] = "." + input_step.split(".")[1]\n', "new": '        indicator = cfg["pipeline"][input_step].get("indicator", "")\n        if len(input_step.split(".")) == 2:\n            indicator += "." + input_step.split(".")[1]\n        cfg["pipeline"][input_step]["indicator"] = indicator\n'},
-    {"id": "eq-indicator-computed-in-a-local", "kind": "equiv", "file": "pandora/state_machine.py", "old": '        cfg["pipeline"][input_step]["indicator"] = ""\n        if len(input_step.split(".")) == 2:\n            cfg["pipeline"][input_step]["indicator"] = "." + input_step.split(".")[1]\n', "new": '        indicator = ""\n        if len(input_step.split(".")) == 2:\n            indicator = "." + input_step.split(".")[1]\n        cfg["pipeline"][input_step]["indicator"] = indicator\n'},
+    {"id": "indicator-suffix-appended-to-previous", "file": "pandora/state_machine.py", "old": '        cfg["pipeline"][input_step]["indicator"] = ""\n        if "." in input_step:\n            cfg["pipeline"][input_step]["indicator"] = "." + input_step.split(".", 1)[1]\n', "new": '        indicator = cfg["pipeline"][input_step].get("indicator", "")\n        if "." in input_step:\n            indicator += "." + input_step.split(".", 1)[1]\n        cfg["pipeline"][input_step]["indicator"] = indicator\n'},
+    {"id": "eq-indicator-computed-in-a-local", "kind": "equiv", "file": "pandora/state_machine.py", "old": '        cfg["pipeline"][input_step]["indicator"] = ""\n        if "." in input_step:\n            cfg["pipeline"][input_step]["indicator"] = "." + input_step.split(".", 1)[1]\n', "new": '        indicator = ""\n        if "." in input_step:\n            indicator = "." + input_step.split(".", 1)[1]\n        cfg["pipeline"][input_step]["indicator"] = indicator\n'},
     {"id": "median-caches-last-result-on-self", "file": "pandora/filter/median.py", "old": "        disp_median = self.median_filter(masked_data)\n", "new": "        disp_median = self.median_filter(masked_data)\n        self._last = disp_median\n"},
     {"id": "ambiguity-row0", "file": AMB, "old": "                    ambiguity[row, col] = etas.shape[0] * nb_disps\n", "new": "                    ambiguity[0, col] = etas.shape[0] * nb_disps\n", "count": 2},
     {"id": "shared-scalar-accumulator", "edits": [(AMB, "        ambiguity = np.zeros((n_row, n_col), dtype=np.float32)\n", "        ambiguity = np.zeros((n_row, n_col), dtype=np.float32)\n        total = 0.0\n", 2), (AMB, "                if np.isnan(normalized_min_cost):\n                    ambiguity[row, col] = etas.shape[0] * nb_disps\n", "                total += normalized_min_cost\n                if np.isnan(normalized_min_cost):\n                    ambiguity[row, col] = etas.shape[0] * nb_disps\n", 2)]},
